@@ -99,6 +99,7 @@ func c10(r *core.Report) {
 	crashAssert(r, cs, nil)
 	crashIndex(r, cs, 10)
 	crashLib(r, cs, 3)
+	crashHash(r, cs, 10)
 	crashRec(r, cs, nil, nil)
 	crashNil(r, cs)
 }
@@ -1357,4 +1358,158 @@ func assertBlockOf(v ssa.Value) *ssa.BasicBlock {
 		return x.Block()
 	}
 	return nil
+}
+
+// ---------------------------------------------------------------- hash
+
+// crashHash: operations that hash or compare an interface value panic when its dynamic type is not
+// comparable ("hash of unhashable type", "comparing uncomparable type"): a map whose key type is an
+// interface, and == / != between two interface values. Each needs an operand whose dynamic type is
+// known comparable: for a map key the key itself; for a comparison either side (values of different
+// dynamic types compare unequal without looking inside).
+func crashHash(r *core.Report, cs *crashScope, floor int) {
+	p := r.Prog
+	r.RunRule(cs.id+".hash", "interface-keyed map operations and interface comparisons: the key (for a comparison: one operand) is a constant, a conversion from a strictly comparable concrete type, or a package-level sentinel assigned only such values (errors.New / fmt.Errorf results count: pointer types), or a reflect.Type", floor, func() {
+		perFn := map[string]int{}
+		for _, fn := range cs.funcs {
+			fname := shortFn(fn)
+			for _, b := range fn.Blocks {
+				for _, in := range b.Instrs {
+					switch x := in.(type) {
+					case *ssa.MapUpdate:
+						mt, ok := x.Map.Type().Underlying().(*types.Map)
+						if !ok || !types.IsInterface(mt.Key()) {
+							continue
+						}
+						perFn[fname+"/mapkey"]++
+						key := fmt.Sprintf("hash:%s/mapkey#%d", fname, perFn[fname+"/mapkey"])
+						if why := hashableValue(p, x.Key, 0); why != "" {
+							r.OK(key, p.Pos(in.Pos()), why)
+						} else {
+							r.Bad(key, p.Pos(in.Pos()), fmt.Sprintf("insert into %s with a key whose dynamic type is not known to be comparable: a slice, map or function value there panics with `hash of unhashable type` (decoded YAML can hold map[any]any, decoded JSON []any and map[string]any)", mt))
+						}
+					case *ssa.Lookup:
+						mt, ok := x.X.Type().Underlying().(*types.Map)
+						if !ok || !types.IsInterface(mt.Key()) {
+							continue
+						}
+						perFn[fname+"/mapkey"]++
+						key := fmt.Sprintf("hash:%s/mapkey#%d", fname, perFn[fname+"/mapkey"])
+						if why := hashableValue(p, x.Index, 0); why != "" {
+							r.OK(key, p.Pos(in.Pos()), why)
+						} else {
+							r.Bad(key, p.Pos(in.Pos()), fmt.Sprintf("lookup in %s with a key whose dynamic type is not known to be comparable: panics with `hash of unhashable type`", mt))
+						}
+					case *ssa.BinOp:
+						if x.Op != token.EQL && x.Op != token.NEQ || !types.IsInterface(x.X.Type()) || !types.IsInterface(x.Y.Type()) {
+							continue
+						}
+						if isNilConst(x.X) || isNilConst(x.Y) {
+							continue
+						}
+						perFn[fname+"/eq"]++
+						key := fmt.Sprintf("hash:%s/eq#%d", fname, perFn[fname+"/eq"])
+						why := hashableValue(p, x.X, 0)
+						if why == "" {
+							why = hashableValue(p, x.Y, 0)
+						}
+						if why != "" {
+							r.OK(key, p.Pos(in.Pos()), "one operand: "+why)
+						} else {
+							r.Bad(key, p.Pos(in.Pos()), "comparison of two interface values neither of which has a known comparable dynamic type: equal uncomparable dynamic types (slices, maps, e.g. MultiError or decoded JSON containers) panic with `comparing uncomparable type`")
+						}
+					}
+				}
+			}
+		}
+	})
+}
+
+func isNilConst(v ssa.Value) bool {
+	c, ok := v.(*ssa.Const)
+	return ok && c.IsNil()
+}
+
+// strictComparable: values of the type can be hashed and compared without a run-time panic.
+func strictComparable(t types.Type, depth int) bool {
+	if depth > 6 {
+		return false
+	}
+	switch u := t.Underlying().(type) {
+	case *types.Basic:
+		return u.Kind() != types.UntypedNil
+	case *types.Pointer, *types.Chan:
+		return true
+	case *types.Struct:
+		for i := 0; i < u.NumFields(); i++ {
+			if !strictComparable(u.Field(i).Type(), depth+1) {
+				return false
+			}
+		}
+		return true
+	case *types.Array:
+		return strictComparable(u.Elem(), depth+1)
+	}
+	return false
+}
+
+// hashableValue: the interface value's dynamic type is strictly comparable on every path.
+func hashableValue(p *core.Prog, v ssa.Value, depth int) string {
+	if depth > 5 {
+		return ""
+	}
+	switch x := v.(type) {
+	case *ssa.Const:
+		return "a constant"
+	case *ssa.MakeInterface:
+		if strictComparable(x.X.Type(), 0) {
+			return fmt.Sprintf("converted from %s (comparable)", x.X.Type())
+		}
+	case *ssa.ChangeInterface:
+		return hashableValue(p, x.X, depth+1)
+	case *ssa.Phi:
+		why := ""
+		for _, e := range x.Edges {
+			w := hashableValue(p, e, depth+1)
+			if w == "" {
+				return ""
+			}
+			why = w
+		}
+		return why
+	case *ssa.Call:
+		if sc := x.Common().StaticCallee(); sc != nil {
+			switch sc.String() {
+			case "errors.New", "fmt.Errorf":
+				return "result of " + sc.String() + " (a pointer)"
+			case "reflect.TypeOf", "(reflect.Value).Type":
+				return "a reflect.Type (the runtime's type descriptors are pointers)"
+			}
+		}
+	case *ssa.UnOp:
+		g, ok := x.X.(*ssa.Global)
+		if !ok || x.Op != token.MUL || g.Pkg == nil {
+			return ""
+		}
+		// every store to the global, anywhere in its package, stores a hashable value
+		stores := 0
+		for _, fn := range allFuncsOf(g.Pkg) {
+			for _, b := range fn.Blocks {
+				for _, in := range b.Instrs {
+					st, ok := in.(*ssa.Store)
+					if !ok || st.Addr != ssa.Value(g) {
+						continue
+					}
+					stores++
+					if hashableValue(p, st.Val, depth+1) == "" {
+						return ""
+					}
+				}
+			}
+		}
+		if stores > 0 {
+			return fmt.Sprintf("the sentinel %s.%s, assigned only comparable values (%d store(s) in its package)", g.Pkg.Pkg.Name(), g.Name(), stores)
+		}
+	}
+	return ""
 }
